@@ -200,6 +200,13 @@ def run(rep, tier, rng):
                            "implementation": a, "model": b}, no_input=True)
 
 
+def library_soup(rep, tier, rng):
+    """LIBRARY SOUP (checks/pylib.py): a DAG of two to four stateful libraries importing one another through every kind of import
+    set, a program that imports some of them and calls what it sees - judged by an independent reference module system in Python"""
+    from . import pylib
+    pylib.soup_phase(rep, rng, 150 if tier == "quick" else 3000, C, R)
+
+
 def main(tier, seed):
     rep = C.Report(PROP, tier, seed)
     rng = random.Random(seed)
@@ -207,7 +214,8 @@ def main(tier, seed):
                        "procedure that refers to an importer variable; in half of the scenarios a library body defines a macro whose keyword the program and a later-loaded library file use as a procedure; in half one library assigns a name it imported while libraries with the same import declaration use that name), 0-2 wrapper libraries importing them directly or through "
                        "another wrapper, an importing program of 6-20 forms that calls, reads, redefines imported names and "
                        "defines colliding names; as files under a program directory; distinct = distinct scenarios")
-    ok = C.standard_proof_phase(rep, MODULES, directed_search=lambda r: run(r, tier, rng))
+    ok = C.standard_proof_phase(rep, MODULES, directed_search=lambda r: (run(r, tier, rng), library_soup(r, tier, rng)))
     if ok:
         run(rep, tier, rng)
+        library_soup(rep, tier, rng)
     return rep.finish("cd lean && lake build RuschmProofs.C13 && lake env lean <#print axioms of every theorem in RuschmProofs/C13.lean>")
